@@ -251,3 +251,12 @@ proptest! {
         crate::copyset::check_set::<SetUsize>(&slice);
     }
 }
+
+#[cfg(droundy_tinyset_verif)]
+impl SetUsize {
+    /// The underlying untyped set, for external verification tooling
+    /// (`--cfg droundy_tinyset_verif` only).
+    pub fn verif_inner(&self) -> &Internal {
+        &self.0
+    }
+}
